@@ -172,6 +172,8 @@ class FindFiles(FnSpec):
 
 
 def add_findfiles(reg):
+    if reg.class_homes.get("IH5Record") is None:
+        reg.set_class_home("IH5Record", "ih5/record.py")
     s = FindFiles()
     reg.add(s)
     return [s]
